@@ -85,20 +85,21 @@ type memVersion struct {
 }
 
 type bprover struct {
-	fn       *ssa.Function
-	w        *World
-	ids      map[ssa.Value]string
-	nid      int
-	global   []fact // invariants valid everywhere (phi lower bounds, unsigned atoms, assumptions)
-	axioms   map[string]bool
-	memIn    map[*ssa.BasicBlock]*memVersion
-	loadVer  map[*ssa.UnOp]*memVersion
-	callVers map[*ssa.Call]*memVersion
-	cell     ssa.Value // the versioned pointer parameter
-	halfOf   map[string]lin
-	maxes    map[string][2]lin // max(a, b) atoms: their two operands
-	assume   []string
-	depth    int
+	fn        *ssa.Function
+	w         *World
+	ids       map[ssa.Value]string
+	nid       int
+	global    []fact // invariants valid everywhere (phi lower bounds, unsigned atoms, assumptions)
+	axioms    map[string]bool
+	memIn     map[*ssa.BasicBlock]*memVersion
+	loadVer   map[*ssa.UnOp]*memVersion
+	callVers  map[*ssa.Call]*memVersion
+	cell      ssa.Value // the versioned pointer parameter
+	halfOf    map[string]lin
+	maxes     map[string][2]lin   // max(a, b) atoms: their two operands
+	slicePhis map[string]*ssa.Phi // len(φ) atoms of byte-sequence phis
+	assume    []string
+	depth     int
 }
 
 func newBProver(w *World, fn *ssa.Function) *bprover {
@@ -244,6 +245,15 @@ func (p *bprover) lenOf(v ssa.Value, at *ssa.BasicBlock) lin {
 	}
 	if n, isArr := arrayLen(v.Type()); isArr {
 		return konst(n)
+	}
+	if ph, isPhi := v.(*ssa.Phi); isPhi && isByteSeq(ph.Type()) {
+		a := "len(" + p.id(v) + ")"
+		p.axioms[a] = true
+		if p.slicePhis == nil {
+			p.slicePhis = map[string]*ssa.Phi{}
+		}
+		p.slicePhis[a] = ph
+		return atomLin(a)
 	}
 	switch x := v.(type) {
 	case *ssa.Slice:
@@ -708,6 +718,35 @@ func (p *bprover) prove(goal lin, facts []fact, depth int) bool {
 	if p.proveLinear(goal, facts, depth) {
 		return true
 	}
+	// the length of a slice that is one of several at a join (`if len(b) > 8 { b = b[len(b)-8:] }`): the goal
+	// holds if it holds for each incoming slice with what is known on that way in
+	if depth < 3 {
+		for atom, k := range goal.t {
+			ph, isPhi := p.slicePhis[atom]
+			if !isPhi || k == 0 {
+				continue
+			}
+			rest := goal.sub(atomLin(atom).scale(k))
+			all := true
+			for i, e := range ph.Edges {
+				if e == ssa.Value(ph) {
+					continue
+				}
+				pred := ph.Block().Preds[i]
+				fs := append(append([]fact{}, facts...), p.factsAt(pred)...)
+				if iff, isIf := terminator(pred).(*ssa.If); isIf && len(pred.Succs) == 2 && pred.Succs[0] != pred.Succs[1] {
+					fs = append(fs, p.condFacts(iff.Cond, pred.Succs[0] == ph.Block(), pred)...)
+				}
+				if !p.prove(rest.add(p.lenOf(e, pred).scale(k)), fs, depth+1) {
+					all = false
+					break
+				}
+			}
+			if all {
+				return true
+			}
+		}
+	}
 	// max(a, b) is one of a and b: the goal holds if it holds with either in its place
 	if depth < 3 {
 		for atom, k := range goal.t {
@@ -974,6 +1013,24 @@ func isByteSeq(t types.Type) bool {
 	return false
 }
 
+// byteTyped: v is a byte, or a byte widened to another integer type
+func byteTyped(v ssa.Value) bool {
+	for i := 0; i < 3; i++ {
+		if b, ok := v.Type().Underlying().(*types.Basic); ok && (b.Kind() == types.Uint8 || b.Kind() == types.Byte) {
+			return true
+		}
+		switch x := v.(type) {
+		case *ssa.Convert:
+			v = x.X
+		case *ssa.ChangeType:
+			v = x.X
+		default:
+			return false
+		}
+	}
+	return false
+}
+
 // arrayLen: the length of an array value or of the array a pointer points to
 func arrayLen(t types.Type) (int64, bool) {
 	switch u := t.Underlying().(type) {
@@ -1131,6 +1188,10 @@ func (p *bprover) indexObl(in ssa.Instruction, x, idx ssa.Value, b *ssa.BasicBlo
 	}
 	facts := p.factsAt(b)
 	i := p.val(idx, b)
+	// a value of type byte lies in [0, 255] (a table of 256 entries indexed by a character)
+	if byteTyped(idx) {
+		facts = append(append([]fact{}, facts...), fact{i, "a byte is >= 0"}, fact{konst(255).sub(i), "a byte is <= 255"})
+	}
 	var parts []string
 	ok := true
 	if !p.prove(i, facts, 0) {
